@@ -350,6 +350,32 @@ func init() {
 						}
 					}
 					if okScan {
+						// the Scan must happen on every path to the INSERT, and nothing of the caller's
+						// Reflog may be stored into the variable
+						var scans = map[ssa.Instruction]bool{}
+						eachCall(cl, func(sc ssa.CallInstruction) {
+							if f := calleeFunc(sc); f != nil && f.Name() == "Scan" && f.Pkg() != nil && f.Pkg().Path() == "database/sql" {
+								scans[sc] = true
+							}
+						})
+						if path, reach := reachAfter(cl, nil, c, nil, scans); reach {
+							r.bad(key, p.Rel(c.Pos()), what, fmtPath("the INSERT is reachable without reading the old value in this transaction", path))
+							return
+						}
+						if u, isLoad := v.(*ssa.UnOp); isLoad {
+							if al, isAlloc := u.X.(*ssa.Alloc); isAlloc {
+								for _, ref := range *al.Referrers() {
+									if st, isSt := ref.(*ssa.Store); isSt && st.Addr == al {
+										for x := range backward(st.Val, nil) {
+											if par, isPar := x.(*ssa.FreeVar); isPar && strings.Contains(par.Type().String(), "Reflog") {
+												r.bad(key, p.Rel(st.Pos()), what, "a value taken from the caller-supplied Reflog is stored into the variable bound to oldoid")
+												return
+											}
+										}
+									}
+								}
+							}
+						}
 						r.ok(key, p.Rel(c.Pos()), what)
 					} else {
 						r.bad(key, p.Rel(c.Pos()), what, "the bound value is not a variable filled by row.Scan on a tx.QueryRow result")
